@@ -7,6 +7,7 @@ RULE = ("online-generated histories (global/local/multi-target channels, DMM wit
         "XY); at the end (and once mid-history) sample(seq) is compared at every nanosecond with the reference renderer "
         "(channel arrays, phase over each pulse, per-atom all-local view, global+local view, extension padding). "
         "non-trivial = distinct case with a local retarget, a DMM or an open EOM block")
+RULE += " Later additions: directed: registers on a ring (float noise between mirrored sites, optional 1e-9 um jitter) with pairwise different DMM weights."
 ASSUMPTIONS = ["timeline read from Sequence._schedule; reference renderer shares no code with pulser",
                "phase is only required over real pulses; nanoseconds where two drives of one basis overlap on an atom are gray for the phase"]
 TIERS = {"quick": dict(cases=1200, shards=8, case_timeout=120, shard_timeout=900),
